@@ -193,11 +193,13 @@ def listedIn (s : St) (t : Nat) (origin : Name) : Bool :=
   | none => false
   | some l => l.contains origin
 
-/-- `ob.reparent(current, as_name)`; a destination name that is taken makes `reparent` call
-`handleDuplicate` (flagged) -/
+/-- `ob.reparent(current, as_name)`; a destination name that is still taken once the moved subtree
+has been unregistered makes `reparent` call `handleDuplicate` (flagged) -/
 def doMove (s : St) (ctx ob : Nat) (asName : Name) : St × Bool :=
   let dup := match path s.reg ctx with
-    | some pp => dhas s.reg.all (pp ++ [asName])
+    | some pp => (match dget s.reg.all (pp ++ [asName]) with
+      | some k => !isBelow s.reg ob k
+      | none => false)
     | none => true
   match reparent s.reg ob ctx asName with
   | .ok r => ({ s with reg := r, bad := s.bad || dup }, true)
